@@ -157,7 +157,9 @@ func (p *c08) Exec(env *Env, plan any) {
 	}
 	s, cleanup := NewStdSql(k, cfg, sql)
 	defer cleanup()
-	// requests are handled atomically: no yields inside state methods
+	// requests are handled atomically: no yields inside state methods nor in
+	// the service-info pipes (which the owner side uses while handling 68)
+	InstallHooks(nil)
 	for _, n := range s.Nodes {
 		if n.Sim != nil {
 			n.Sim.SetYield(nil)
